@@ -6,6 +6,8 @@ result representation (F4) and injected failures (F4') - and read results.
 Oracles: M3 on the exported circuit vs the circuit's own mixed evaluation;
 backend results vs local evaluation for every member of a batch; round trip;
 import of peer-generated tket circuits vs M3."""
+import json
+
 import numpy as np
 
 from sim import world as W
@@ -568,6 +570,16 @@ class World(BaseWorld):
             # raw frequencies were asked for: exact frequencies are n_shots times the probabilities
             refs = [r * params["n_shots"] for r in refs]
             self.note("probe_normalize_false")
+        if params.get("post_select") is False:
+            # only meaningful (and only compared) when no circuit of the batch records a post-selection
+            try:
+                if any(c.to_tk().post_selection for c in circuits):
+                    del params["post_select"]
+            except Exception:
+                del params["post_select"]
+            else:
+                if "post_select" in params:
+                    self.note("probe_post_select_false")
         if op.get("compilation"):
             params["compilation"] = make_pass(op["compilation"])
         plan = dict(op["plan"])
@@ -834,6 +846,11 @@ class Driver:
             return {"op": "roundtrip", "src": src}
         if r < 0.52:
             return {"op": "local_counts", "src": src}
+        last = getattr(self, "last_backend_op", None)
+        if last is not None and r >= 0.52 and sched.random() < 0.12 and all(x in world.slots for x in last["srcs"]):
+            # the same request again: a peer with memory may serve the very objects it served before
+            self.last_backend_op = None
+            return json.loads(json.dumps(last))
         batch = sched.randint(1, min(cfg["batch_max"], len(names)))
         srcs = [src]
         for _ in range(batch - 1):
@@ -842,6 +859,8 @@ class Driver:
         params = {"n_shots": sched.choice([1, 64, 1024, 4096]), "seed": sched.choice([None, 7])}
         if sched.random() < 0.2:
             params["normalize"] = False
+        if sched.random() < 0.15:
+            params["post_select"] = False
         op = {"srcs": srcs, "plan": self.plan(batch), "params": params}
         if sched.random() < 0.25:
             op["compilation"] = sched.choice(["identity", "remove_redundancies", "commute", "failing",
@@ -856,6 +875,9 @@ class Driver:
             op["op"] = "sum"
             op["also_counts"] = sched.random() < 0.5
             op.pop("compilation", None)
+            op["params"].pop("post_select", None)
+        if op["op"] != "sum" and not op.get("interrupt_at") and op.get("compilation") not in ("failing", "mutate_then_fail"):
+            self.last_backend_op = op
         return op
 
 
